@@ -64,12 +64,14 @@ theorem msgRefField_usesOk (c : Ctx) (pkg schema ext : Str) (rules : Rules) (lr 
       exact ⟨((this.add UsesOk.j5Ext).add (UsesOk.validate _)).add (UsesOk.listRules _), UsesOk.empty⟩
 
 theorem enumFieldWith_usesOk (pre walk : Eff) (tn pfx : Str) (names : List Str) (rules : Rules)
-    (lr : Bool) (h1 : UsesOk pre) (h2 : UsesOk walk) :
+    (lr : Option (List Str)) (h1 : UsesOk pre) (h2 : UsesOk walk) :
     UsesOk (enumFieldWith pre walk tn pfx names rules lr).eff ∧
       UsesOk (enumFieldWith pre walk tn pfx names rules lr).walk := by
   unfold enumFieldWith
   split
   · exact ⟨h1.add UsesOk.j5Ext, h2⟩
+  split
+  · exact ⟨(h1.add UsesOk.j5Ext).add (UsesOk.validate _), h2⟩
   · exact ⟨((h1.add UsesOk.j5Ext).add (UsesOk.validate _)).add (UsesOk.listRules _), h2⟩
 
 theorem scalarField_usesOk (f : Field) (b : BF) (h : scalarField f = some b) :
